@@ -17,7 +17,7 @@ J c14a_to_json(const C14aCase& c) {
   j.set("engine", "c14a"); j.set("property", "C14"); j.set("part", c.part); j.set("base", c.base);
   j.set("interval", c.interval);
   J st = J::arr();
-  for (const Step& s : c.steps) { J q = query_to_json(s.q); q.set("check", s.check); st.push(q); }
+  for (const Step& s : c.steps) { J q = query_to_json(s.q); q.set("check", s.check); if (s.zone) q.set("zone", s.zone); st.push(q); }
   j.set("steps", st);
   J sl = J::arr(); sl.push("steps");
   j.set("shrink_lists", sl);
@@ -27,7 +27,7 @@ J c14a_to_json(const C14aCase& c) {
 bool c14a_from_json(const J& j, C14aCase* c) {
   c->part = j.gets("part"); c->base = j.gets("base"); c->interval = j.geti("interval", -1);
   c->steps.clear();
-  for (const J& q : j.at("steps").a) { Step s; s.q = query_from_json(q); s.check = q.getb("check", true); c->steps.push_back(s); }
+  for (const J& q : j.at("steps").a) { Step s; s.q = query_from_json(q); s.check = q.getb("check", true); s.zone = static_cast<int>(q.geti("zone")); c->steps.push_back(s); }
   c->explicit_steps = true;
   return !c->base.empty();
 }
@@ -215,6 +215,7 @@ C14aCase gen_c14a(const std::string& part, const std::string& tier, uint64_t see
       }
     } else s.q = gen_query(&r, sh, false);
     s.check = true;
+    if (r.chance(0.12)) { s.zone = static_cast<int>(r.range(1, 3)); s.check = false; }   // a call on another zone in between
     c.steps.push_back(s);
   }
   c.explicit_steps = true;
@@ -234,6 +235,8 @@ Outcome exec_c14a(const C14aCase& cc, bool keep_log, Stats* stats) {
   }
   cctz::time_zone subject;
   ld.load(zi.bytes, &subject, "subject");
+  cctz::time_zone decoy_zone, decoy_fixed = cctz::fixed_time_zone(cctz::seconds(3600));
+  bool decoy_loaded = false;
   uint64_t lh = 0x14;
   std::vector<std::string> log;
   auto viol = [&](const std::string& cls, const std::string& site, const std::string& detail) {
@@ -252,6 +255,13 @@ Outcome exec_c14a(const C14aCase& cc, bool keep_log, Stats* stats) {
       q = civil_q(cs);
     }
     asked[i] = q;
+    if (c.steps[i].zone != 0) {
+      // Decoy: the same kind of call on a different zone; its answer is not judged here.
+      if (c.steps[i].zone == 1 && !decoy_loaded) { ld.load(shipped_bytes(c.base == "shipped:Europe/London" ? "Asia/Tokyo" : "Europe/London"), &decoy_zone, "decoy"); decoy_loaded = true; }
+      const cctz::time_zone& dz = c.steps[i].zone == 1 ? decoy_zone : (c.steps[i].zone == 2 ? cctz::utc_time_zone() : decoy_fixed);
+      got[i] = run_query(dz, q);
+      continue;
+    }
     got[i] = run_query(subject, q);
     lh = hash_str(got[i], lh);
     if (keep_log && log.size() < 400) log.push_back(std::string(c.steps[i].check ? "check " : "set   ") + query_text(q) + " = " + got[i]);
@@ -275,7 +285,7 @@ Outcome exec_c14a(const C14aCase& cc, bool keep_log, Stats* stats) {
     cctz::time_zone rev;
     ld.load(zi.bytes, &rev, "rev");
     for (size_t k = c.steps.size(); k-- > 0;) {
-      if (!c.steps[k].check) continue;
+      if (!c.steps[k].check || c.steps[k].zone != 0) continue;
       std::string w = run_query(rev, asked[k]);
       ++checked;
       if (w != got[k]) { viol("c14:hint-dependence", query_text(asked[k]) + " on " + c.base, "forward history got '" + got[k] + "', reversed history got '" + w + "' (step " + std::to_string(k) + ")"); break; }
@@ -290,7 +300,7 @@ Outcome exec_c14a(const C14aCase& cc, bool keep_log, Stats* stats) {
   if (keep_log) out.log = log;
   if (!out.violations.empty() || keep_log) {
     J st = J::arr();
-    for (size_t i = 0; i < asked.size(); ++i) { J q = query_to_json(asked[i]); q.set("check", c.steps[i].check); st.push(q); }
+    for (size_t i = 0; i < asked.size(); ++i) { J q = query_to_json(asked[i]); q.set("check", c.steps[i].check); if (c.steps[i].zone) q.set("zone", c.steps[i].zone); st.push(q); }
     out.extra = st;
   }
   if (stats) {
